@@ -35,6 +35,7 @@ def unit_for(mmap):
     # item access of the sequence (int selectors)
     g = B.methods["__getitem__"]
     g.ensures("same(self._lines, old(self._lines)) and same(self.jidx, old(self.jidx)) and self._dirty == old(self._dirty)")
+    g.ensures("self.file != None", "still-open-after-a-read")
 
     m = BM.method("__setitem__", {"i": INT, "content": STR})
     m.raises("IndexError", when="not " + inrange("i"), ensures=["same(self._lines, old(self._lines))"])
@@ -71,11 +72,12 @@ def unit_for(mmap):
     m = MS.method("pop", {"index": INT}, STR)
     m.default_expr("index", "-1")
     m.raises("RuntimeError", when="self.file == None")
-    m.raises("IndexError", when="self.file != None and not " + inrange("index"), ensures=["same(self._lines, old(self._lines))"])
+    m.raises("IndexError", when="self.file != None and not " + inrange("index"))          # no ensures: nothing at all changes
     m.modifies("self._dirty", "self._lines", "self.jidx", *H)
     k = "norm(index, old(%s))" % n_
     m.ensures(own, "handles-are-the-old-ones-or-newly-opened")
     m.ensures("result == " + oldV(k), "returns-the-removed-item")
+    m.ensures("self.file != None", "still-open-after-a-read")
     m.ensures("%s == old(%s) - 1 and self._dirty" % (n_, n_))
     m.ensures("forall(t, 0, %s, %s == %s)" % (k, Vf("t"), oldV("t")), "items-before-keep-their-place")
     m.ensures("forall(t, %s, %s, %s == %s)" % (k, n_, Vf("t"), oldV("t + 1")), "items-after-shift-down")
@@ -94,6 +96,57 @@ def unit_for(mmap):
     m.ensures("result == self and %s == old(%s) + len(values)" % (n_, n_))
     m.ensures("forall(t, 0, old(%s), %s == %s)" % (n_, Vf("t"), oldV("t")), "earlier-items-unchanged")
     m.ensures("forall(t, 0, len(values), %s == values[t])" % Vf("old(%s) + t" % n_), "V'=V+values")
+
+
+    # ---- more stdlib mixins: index / remove / reverse / clear (real source of the running interpreter, through the primitives' contracts)
+    SQ = S.cls("Sequence")
+    first_at = lambda r: ("0 <= %s and %s < %s and %s == value and forall(t, 0, %s, %s != value)" % (r, r, n_, Vf(r), r, Vf("t")))
+    present = "exists(t, 0, %s, %s == value)" % (n_, Vf("t"))
+    m = SQ.method("index", {"value": STR, "start": INT, "stop": NONE}, INT, locals={"i": INT, "v": STR})
+    m.requires("start == 0")
+    m.raises("RuntimeError", when="self.file == None")
+    m.raises("ValueError", when="self.file != None and not " + present, ensures=["same(self._lines, old(self._lines)) and same(self.jidx, old(self.jidx))"])
+    m.modifies(*H)
+    lp = m.loop(1).with_class_invariant()
+    lp.invariant("implies(i > 0, self.file != None) and same(self._lines, old(self._lines)) and same(self.jidx, old(self.jidx)) and self._dirty == old(self._dirty)")
+    lp.invariant("0 <= i and i <= %s and forall(t, 0, i, %s != value)" % (n_, Vf("t")), "no-occurrence-before-i")
+    lp.decreases("%s - i + 1" % n_)
+    m.ensures(own, "handles-are-the-old-ones-or-newly-opened")
+    m.ensures("same(self._lines, old(self._lines)) and same(self.jidx, old(self.jidx)) and self._dirty == old(self._dirty) and self.file != None")
+    m.ensures(first_at("result"), "index-of-the-first-occurrence")
+    m = MS.method("remove", {"value": STR})
+    m.raises("RuntimeError", when="self.file == None")
+    m.raises("ValueError", when="self.file != None and not " + present, ensures=["same(self._lines, old(self._lines))"])
+    m.modifies("self._dirty", "self._lines", "self.jidx", *H)
+    m.witness("k", INT, bound_to="g_k")
+    m.at_call("after", "index", ghost="g_k = result")
+    m.ensures(own, "handles-are-the-old-ones-or-newly-opened")
+    m.ensures("0 <= k and k < old(%s) and %s == value and forall(t, 0, k, %s != value)" % (n_, oldV("k"), oldV("t")), "k=the-first-occurrence")
+    m.ensures("%s == old(%s) - 1 and self._dirty" % (n_, n_))
+    m.ensures("forall(t, 0, k, %s == %s)" % (Vf("t"), oldV("t")), "items-before-keep-their-place")
+    m.ensures("forall(t, k, %s, %s == %s)" % (n_, Vf("t"), oldV("t + 1")), "items-after-shift-down")
+    m = MS.method("reverse", {}, locals={"n": INT, "i": INT})
+    m.raises("RuntimeError", when="self.file == None and %s >= 2" % n_)
+    m.modifies("self._dirty", "self._lines", *H)
+    lp = m.loop(1).with_class_invariant()
+    lp.invariant("n == old(%s) and %s == n and implies(_i1 > 0, self.file != None) and same(self.jidx, old(self.jidx))" % (n_, n_))
+    lp.invariant("forall(t, 0, _i1, %s == %s and %s == %s)" % (Vf("t"), oldV("n - 1 - t"), Vf("n - 1 - t"), oldV("t")), "swapped-so-far")
+    lp.invariant("forall(t, _i1, n - _i1, %s == %s)" % (Vf("t"), oldV("t")), "middle-untouched")
+    lp.invariant("implies(_i1 > 0, self._dirty) and implies(_i1 == 0, self._dirty == old(self._dirty))")
+    m.ensures(own, "handles-are-the-old-ones-or-newly-opened")
+    m.ensures("%s == old(%s) and forall(t, 0, %s, %s == %s)" % (n_, n_, n_, Vf("t"), oldV("old(%s) - 1 - t" % n_)), "V'=reversed(V)")
+    m = MS.method("clear", {})
+    m.raises("RuntimeError", when="self.file == None", ensures=["self.file == None"])
+    m.modifies("self._dirty", "self._lines", "self.jidx", *H)
+    lp = m.loop(1).with_class_invariant()
+    lp.invariant("(self.file == None) == (old(self.file) == None) and %s <= old(%s)" % (n_, n_))
+    lp.invariant(own)
+    lp.invariant("forall(hh, implies(old(alive(hh)) and hh != None and hh != old(self.file)%s, hh.pos == old(hh.pos) and hh.closed == old(hh.closed)))"
+                 % (" and hh != old(self.mm)" if mmap else ""), "other-handles-untouched")
+    lp.invariant("implies(%s < old(%s), self._dirty) and implies(%s == old(%s), self._dirty == old(self._dirty))" % (n_, n_, n_, n_))
+    lp.decreases(n_)
+    m.ensures(own, "handles-are-the-old-ones-or-newly-opened")
+    m.ensures("%s == 0 and implies(old(%s) > 0, self._dirty)" % (n_, n_), "V'=[]")
 
     # ---- save
     E = U.module("env:files")
@@ -132,6 +185,8 @@ def unit_for(mmap):
                ("BaseMutableRandomLineAccessFile", "__setitem__", conc), ("BaseMutableRandomLineAccessFile", "__delitem__", conc),
                ("BaseMutableRandomLineAccessFile", "insert", conc), ("MutableSequence", "append", conc), ("MutableSequence", "pop", conc),
                ("MutableSequence", "extend", conc), ("MutableSequence", "__iadd__", conc),
+               ("Sequence", "index", conc), ("MutableSequence", "remove", conc), ("MutableSequence", "reverse", conc),
+               ("MutableSequence", "clear", conc),
                ("BaseRandomLineAccessFile", "__iter__", conc), ("BaseRandomLineAccessFile", "__len__", conc),
                ("BaseMutableRandomLineAccessFile", "_save_from_iter", conc),
                ("RandomLineAccessFile", "__init__", conc), (cls, "_read_line", conc), ("BaseRandomLineAccessFile", "dirty", conc)]
@@ -140,7 +195,7 @@ def unit_for(mmap):
     U.assume("content without line breaks; list semantics of the builtin list for _lines (insert clamps, IndexError ranges)")
     U.assume("print(x, file=h, end=e) appends exactly x+e to the stream (environment contract); that the bytes of the saved file are the "
              "concatenation of the pieces and that reopening gives the same list is checked by the bounded layer only")
-    U.assume("MutableSequence.remove / reverse / clear / index / __contains__ and slice operations: bounded layer only")
+    U.assume("Sequence.count / __contains__ / __reversed__ and slice operations: bounded layer only")
     return U
 
 
